@@ -147,14 +147,22 @@ fn rd_text(rng: &mut Rng, with_offset: bool) -> Value {
     let text = gen_rfc3339(rng, with_offset);
     if with_offset {
         let r = guard(|| PARSER.parse_timestamp(&text));
-        json!({"op":"rd_ts","cls":"grammar","text":codes(&text),"s":text,"re":jts(&r)})
+        // the printers never write a '+' year for 0..=9999 nor seconds in an offset
+        let b = text.as_bytes();
+        let beyond = (b[0] == b'+' && &text[1..3] == "00") || {
+            let n = b.len();
+            n > 9 && b[n - 3] == b':' && b[n - 6] == b':' && (b[n - 9] == b'+' || b[n - 9] == b'-')
+        };
+        let scope = if beyond { "beyond" } else { "property" };
+        json!({"op":"rd_ts","cls":"grammar","scope":scope,"text":codes(&text),"s":text,"re":jts(&r)})
     } else {
         let re = match guard(|| PARSER.parse_datetime(&text)) {
             Ok(Ok(d)) => jdt(d),
             Ok(Err(_)) => json!([]),
             Err(_) => json!([-1]),
         };
-        json!({"op":"rd_dt","cls":"grammar","text":codes(&text),"s":text,"re":re})
+        let scope = if text.starts_with("+00") { "beyond" } else { "property" };
+        json!({"op":"rd_dt","cls":"grammar","scope":scope,"text":codes(&text),"s":text,"re":re})
     }
 }
 
